@@ -1,3 +1,233 @@
 import Nv.OracleIO
-/-! oracle_c09 — stub (model not built yet): answers `bad-op` to every line. -/
-def main : IO Unit := Nv.oracleMain (fun (_ : Unit) _ => ((), "bad-op")) ()
+import Nv.Model.C09
+import Nv.Gen.C09
+/-!
+oracle_c09 — line protocol (state: sparse threshold, bitmap registers `a`,`b`, a list of BigU32 blocks, a list of
+U32BitTip blocks; block operands are list indices):
+  new | magic <m> | load <r> <hex,…16> | dump <r>          as in oracle_c08
+  marshal <r>                       → <hexbytes> | - (empty) | panic
+  unmarshal <r> <hexbytes|->        → ok | err:range:<n> | err:length:<n> | err:element:<v> | panic   (mutates r)
+  roundtrip <r>                     → true | false | panic     (Unmarshal(Marshal r) into a fresh bitmap equals r)
+  big.fromi64 <v>                   → ok | err                 (appends a block)
+  big.fromdata <start> <hexbytes|-> → ok | err:…               (appends a block)
+  big.set <k> <v>                   → ok | err:unsupported | err:start
+  big.rev <k>  | bigs.rev           → ok
+  big.show <k>                      → start=<s> bits=<hex,…16>
+  big.getn <k> <f|r> <n>            → nil | […] | panic
+  big.iter <k> <f|r> <slen> <pos> <n> → c=<c> s=[…] | panic
+  bigs.getn <f|r> <n>               → nil | […] | panic
+  tip.fromu32 <u> | tip.fromdata <start> <hex> | tip.set <k> <u> | tip.rev <k> | tips.rev | tip.show <k>
+  tip.getn <k> <f|r> <n> | tip.iter <k> <f|r> <slen> <pos> <n> | tips.getn <f|r> <n>
+The configuration is the one regenerated from the source (`Nv.Gen.C09.cfg`).
+-/
+open Nv Nv.C08 Nv.C09
+
+namespace OC09
+
+structure S where
+  magic : Int
+  a : Bit1024
+  b : Bit1024
+  bigs : List Block
+  tips : List Block
+
+def cfg : Nv.C09.Cfg := Nv.Gen.C09.cfg
+def init : S := ⟨cfg.base.sparseMagic, empty1024, empty1024, [], []⟩
+
+def hexDigit (c : Char) : Option Nat :=
+  if '0' ≤ c ∧ c ≤ '9' then some (c.toNat - '0'.toNat)
+  else if 'a' ≤ c ∧ c ≤ 'f' then some (c.toNat - 'a'.toNat + 10)
+  else none
+
+def parseHex? (s : String) : Option Nat :=
+  if s.isEmpty || s.length > 16 then none
+  else s.toList.foldl (fun acc c => match acc, hexDigit c with
+    | some a, some d => some (a * 16 + d)
+    | _, _ => none) (some 0)
+
+def hexOf (n : Nat) : String := String.ofList (Nat.toDigits 16 n)
+def showMap (b : Bit1024) : String := ",".intercalate (b.toList.map (fun w => hexOf w.toNat))
+
+def parseMap? (s : String) : Option Bit1024 :=
+  match (s.splitOn ",").mapM parseHex? with
+  | some l => if h : l.length = 16 then some ⟨(l.map (BitVec.ofNat 64)).toArray, by simp [h]⟩ else none
+  | none => none
+
+def parseBytesAux : List Char → Option (List Byte)
+  | [] => some []
+  | [_] => none
+  | hi :: lo :: rest =>
+    match hexDigit hi, hexDigit lo, parseBytesAux rest with
+    | some h, some l, some r => some (BitVec.ofNat 8 (h * 16 + l) :: r)
+    | _, _, _ => none
+
+def parseBytes? (s : String) : Option (List Byte) :=
+  if s == "-" then some [] else if s.isEmpty then none else parseBytesAux s.toList
+
+def hex2 (b : Byte) : String :=
+  let d := Nat.toDigits 16 b.toNat
+  String.ofList (if d.length < 2 then '0' :: d else d)
+
+def showBytes (l : List Byte) : String := if l.isEmpty then "-" else String.join (l.map hex2)
+
+def showVal {w : Nat} (signed : Bool) (v : BitVec w) : String :=
+  if signed then toString v.toInt else toString v.toNat
+
+def fill (w : Nat) (len : Nat) : List (BitVec w) := (List.range len).map (fun k => BitVec.ofNat w (37 * k + 11))
+
+def showIter {w : Nat} (signed : Bool) : Option (List (BitVec w) × Nat) → String
+  | none => "panic"
+  | some (s, c) => s!"c={c} s={showList (showVal signed) s}"
+
+def showGetN {w : Nat} (signed : Bool) : GetN (BitVec w) → String
+  | .panic => "panic"
+  | .nil => "nil"
+  | .slice l => showList (showVal signed) l
+
+def parseDir (s : String) : Option Bool :=
+  if s == "f" then some false else if s == "r" then some true else none
+
+def reg (st : S) (r : String) : Option Bit1024 :=
+  if r == "a" then some st.a else if r == "b" then some st.b else none
+
+def setReg (st : S) (r : String) (v : Bit1024) : S :=
+  if r == "a" then { st with a := v } else { st with b := v }
+
+def inI32 (i : Int) : Bool := -2147483648 ≤ i && i ≤ 2147483647
+def inI64 (i : Int) : Bool := -9223372036854775808 ≤ i && i ≤ 9223372036854775807
+def inU32 (i : Int) : Bool := 0 ≤ i && i ≤ 4294967295
+def inPos (i : Int) : Bool := -4611686018427387904 ≤ i && i ≤ 4611686018427387904
+def maxSlice : Nat := 100000
+
+def showUErr : UErr → String
+  | .range n => s!"err:range:{n}"
+  | .length n => s!"err:length:{n}"
+  | .element v => s!"err:element:{v}"
+
+def showSet : SetRes → String
+  | .ok => "ok" | .unsupported => "err:unsupported" | .invalidStart => "err:start"
+
+def showBlock (b : Block) : String := s!"start={b.start.toNat} bits={showMap b.bits}"
+
+def setAt (l : List Block) (k : Nat) (b : Block) : List Block := l.set k b
+
+def step (st : S) (line : String) : S × String :=
+  match words line with
+  | ["new"] => (init, "ok")
+  | ["magic", m] => match parseInt? m with
+    | some m => if inI32 m then ({ st with magic := m }, "ok") else (st, "bad-op")
+    | none => (st, "bad-op")
+  | ["load", r, m] => match reg st r, parseMap? m with
+    | some _, some v => (setReg st r v, "ok")
+    | _, _ => (st, "bad-op")
+  | ["dump", r] => match reg st r with
+    | some b => (st, showMap b)
+    | none => (st, "bad-op")
+  | ["marshal", r] => match reg st r with
+    | some b => (st, match marshal cfg st.magic b with | some bs => showBytes bs | none => "panic")
+    | none => (st, "bad-op")
+  | ["unmarshal", r, h] => match reg st r, parseBytes? h with
+    | some b, some bs =>
+      if bs.length > 400 then (st, "bad-op") else
+      match unmarshal b bs with
+      | .ok b' => (setReg st r b', "ok")
+      | .err e b' => (setReg st r b', showUErr e)
+      | .panic => (st, "panic")
+    | _, _ => (st, "bad-op")
+  | ["roundtrip", r] => match reg st r with
+    | some b => (st, match marshal cfg st.magic b with
+      | none => "panic"
+      | some bs => match unmarshal empty1024 bs with
+        | .ok b' => if equal1024 b' b then "true" else "false"
+        | .err _ _ => "false"
+        | .panic => "panic")
+    | none => (st, "bad-op")
+  | ["big.fromi64", v] => match parseInt? v with
+    | some v => if !inI64 v then (st, "bad-op") else
+      match newBigFromI64 (BitVec.ofInt 64 v) with
+      | some b => ({ st with bigs := st.bigs ++ [b] }, "ok")
+      | none => (st, "err")
+    | none => (st, "bad-op")
+  | [op, s, h] =>
+    if op == "big.fromdata" || op == "tip.fromdata" then
+      match parseInt? s, parseBytes? h with
+      | some s, some bs =>
+        if !inU32 s || bs.length > 400 then (st, "bad-op") else
+        match fromData (op == "tip.fromdata") (BitVec.ofInt 32 s) bs with
+        | .ok b => (if op == "big.fromdata" then { st with bigs := st.bigs ++ [b] } else { st with tips := st.tips ++ [b] }, "ok")
+        | .badStart => (st, "err:start")
+        | .err e => (st, showUErr e)
+        | .panic => (st, "panic")
+      | _, _ => (st, "bad-op")
+    else if op == "big.set" then
+      match parseNat? s, parseInt? h with
+      | some k, some v => match st.bigs[k]? with
+        | some b => if !inI64 v then (st, "bad-op") else
+          let r := bigSetI64 b (BitVec.ofInt 64 v)
+          ({ st with bigs := setAt st.bigs k r.1 }, showSet r.2)
+        | none => (st, "bad-op")
+      | _, _ => (st, "bad-op")
+    else if op == "tip.set" then
+      match parseNat? s, parseInt? h with
+      | some k, some v => match st.tips[k]? with
+        | some b => if !inU32 v then (st, "bad-op") else
+          let r := tipSetU32 b (BitVec.ofInt 32 v)
+          ({ st with tips := setAt st.tips k r.1 }, showSet r.2)
+        | none => (st, "bad-op")
+      | _, _ => (st, "bad-op")
+    else if op == "bigs.getn" || op == "tips.getn" then
+      match parseDir s, parseInt? h with
+      | some rev, some n =>
+        if !inPos n || n > maxSlice then (st, "bad-op")
+        else if op == "bigs.getn" then (st, showGetN true (bigsGetN cfg st.magic rev st.bigs n))
+        else (st, showGetN false (tipsGetN cfg st.magic rev st.tips n))
+      | _, _ => (st, "bad-op")
+    else (st, "bad-op")
+  | ["tip.fromu32", u] => match parseInt? u with
+    | some u => if !inU32 u then (st, "bad-op") else ({ st with tips := st.tips ++ [newTipFromU32 (BitVec.ofInt 32 u)] }, "ok")
+    | none => (st, "bad-op")
+  | ["bigs.rev"] => ({ st with bigs := st.bigs.map Block.reverse }, "ok")
+  | ["tips.rev"] => ({ st with tips := st.tips.map Block.reverse }, "ok")
+  | [op, k] => match parseNat? k with
+    | some k =>
+      if op == "big.rev" then match st.bigs[k]? with
+        | some b => ({ st with bigs := setAt st.bigs k b.reverse }, "ok")
+        | none => (st, "bad-op")
+      else if op == "tip.rev" then match st.tips[k]? with
+        | some b => ({ st with tips := setAt st.tips k b.reverse }, "ok")
+        | none => (st, "bad-op")
+      else if op == "big.show" then match st.bigs[k]? with
+        | some b => (st, showBlock b)
+        | none => (st, "bad-op")
+      else if op == "tip.show" then match st.tips[k]? with
+        | some b => (st, showBlock b)
+        | none => (st, "bad-op")
+      else (st, "bad-op")
+    | none => (st, "bad-op")
+  | [op, k, d, n] => match parseNat? k, parseDir d, parseInt? n with
+    | some k, some rev, some n =>
+      if !inPos n || n > maxSlice then (st, "bad-op")
+      else if op == "big.getn" then match st.bigs[k]? with
+        | some b => (st, showGetN true (bigGetN cfg st.magic rev b n))
+        | none => (st, "bad-op")
+      else if op == "tip.getn" then match st.tips[k]? with
+        | some b => (st, showGetN false (tipGetN cfg st.magic rev b n))
+        | none => (st, "bad-op")
+      else (st, "bad-op")
+    | _, _, _ => (st, "bad-op")
+  | [op, k, d, slen, pos, n] => match parseNat? k, parseDir d, parseNat? slen, parseInt? pos, parseInt? n with
+    | some k, some rev, some slen, some pos, some n =>
+      if slen > maxSlice || !inPos pos || !inPos n then (st, "bad-op")
+      else if op == "big.iter" then match st.bigs[k]? with
+        | some b => (st, showIter true (bigIter cfg st.magic rev b (fill 64 slen) pos n))
+        | none => (st, "bad-op")
+      else if op == "tip.iter" then match st.tips[k]? with
+        | some b => (st, showIter false (tipIter cfg st.magic rev b (fill 32 slen) pos n))
+        | none => (st, "bad-op")
+      else (st, "bad-op")
+    | _, _, _, _, _ => (st, "bad-op")
+  | _ => (st, "bad-op")
+
+end OC09
+
+def main : IO Unit := Nv.oracleMain OC09.step OC09.init
